@@ -304,7 +304,8 @@ func genStateCase(t *rapid.T) StateCase {
 		case "snapshot":
 		case "revert":
 			op.V = rapid.IntRange(0, 5).Draw(t, "depth")
-		case "iroot", "commit":
+		case "iroot":
+		case "commit":
 			op.Del = rapid.Bool().Draw(t, "del")
 		case "reopen":
 			op.Del = rapid.Bool().Draw(t, "del")
@@ -334,11 +335,19 @@ type snap struct {
 	at       int // index into the mutation log
 }
 
+// mut is one executed mutating operation: its kind, address, whether it journals an entry
+// that marks the address dirty, and whether it replaced an existing account object.
+type mut struct {
+	kind         string
+	a            addr
+	dirty, reset bool
+}
+
 type stRun struct {
 	x     *h.Ctx
 	u, r  sdb
 	snaps []snap
-	muts  []string // kinds of the mutating operations executed so far in this transaction
+	muts  []mut // the journaled operations of the current transaction that were not reverted
 	stats struct{ reverts, richReverts, nested, reopenDisk, reopenCache, suicides, resets, rootChecks, deletedEmpty int }
 }
 
@@ -372,6 +381,41 @@ func (r *stRun) roots(ru, rr word, where string) bool {
 }
 
 func (r *stRun) endTx() { r.snaps, r.muts = nil, nil }
+
+// bareReset finds an address whose account object was replaced by CreateAccount in the current
+// transaction while no operation of the transaction marks that address dirty. No real caller
+// produces this (the EVM follows CreateAccount with SetNonce/Transfer and ends a successful
+// create with SetCode), and StateDB is known to mishandle it, see bareResetCheck.
+func (r *stRun) bareReset() (addr, bool) {
+	for i, m := range r.muts {
+		if !m.reset {
+			continue
+		}
+		dirty := false
+		for _, o := range r.muts {
+			if o.a == m.a && o.dirty {
+				dirty = true
+			}
+		}
+		if !dirty {
+			return r.muts[i].a, true
+		}
+	}
+	return addr{}, false
+}
+
+// bareResetCheck ends a case whose transaction contains a bare reset: the root must still be the
+// naive root of the observable content. The reference (go-ethereum 1.8.27) has the same defect,
+// so it is not consulted, and the case stops here because reference and tree under test may
+// legitimately diverge from now on.
+func (r *stRun) bareResetCheck(a addr, del bool, where string) {
+	ru := r.u.IRoot(del)
+	ct := content(r.u)
+	r.x.Label("ended-at-bare-reset")
+	if nr := naiveStateRoot(ct); !bytes.Equal(nr, ru[:]) {
+		r.x.Fail("create-over-existing-account-not-written-to-trie", "%s: CreateAccount(%x) replaced an existing account and nothing else touched it in this transaction; IntermediateRoot(%v) = %x still commits to the old account, the root of the observable content is %x; content: %s", where, a[:2], del, ru, nr, contentString(ct))
+	}
+}
 
 func (r *stRun) commit(del bool, where string) (word, bool) {
 	ru, eu := r.u.Commit(del)
@@ -415,7 +459,19 @@ func (r *stRun) reopen(root word, disk bool, where string) bool {
 func runStateCase(c StateCase, x *h.Ctx) {
 	r := &stRun{x: x, u: newUT(), r: newRef()}
 	u := r.u
+	// deleteEmptyObjects is a per-block constant for every real caller (Finalise/IntermediateRoot
+	// after each transaction and Commit at the end of the block get the same chain-config flag):
+	// an IntermediateRoot uses the flag of the Commit that ends its commit period.
+	periodDel := make([]bool, len(c.Ops))
+	cur := c.FinalDel
+	for i := len(c.Ops) - 1; i >= 0; i-- {
+		if c.Ops[i].Op == "commit" || c.Ops[i].Op == "reopen" {
+			cur = c.Ops[i].Del
+		}
+		periodDel[i] = cur
+	}
 	for idx, op := range c.Ops {
+		op.Del = periodDel[idx]
 		a := stAddrs[op.A%len(stAddrs)]
 		where := fmt.Sprintf("op %d %s", idx, op.Op)
 		var before []string
@@ -427,6 +483,15 @@ func runStateCase(c StateCase, x *h.Ctx) {
 		}
 		oldBal := new(big.Int).Set(u.Balance(a))
 		existed := u.Exist(a)
+		wasEmpty := u.Empty(a)
+		dirty, reset := !existed, false // operations on an absent address create it (journaled, dirty)
+		switch op.Op {
+		case "iroot", "commit", "reopen":
+			if ba, ok := r.bareReset(); ok {
+				r.bareResetCheck(ba, op.Del, where)
+				return
+			}
+		}
 		post := func(ok bool, f string, args ...any) bool {
 			if ok {
 				return false
@@ -439,6 +504,7 @@ func runStateCase(c StateCase, x *h.Ctx) {
 			r.r.Create(a)
 			if existed {
 				r.stats.resets++
+				reset = true
 			}
 			bad := post(u.Exist(a) && u.Nonce(a) == 0 && len(u.Code(a)) == 0 && u.Balance(a).Cmp(oldBal) == 0 && !u.Suicided(a),
 				"CreateAccount(%x): exist=%v nonce=%d code=%x balance=%s (carried over: %s) suicided=%v", a[:2], u.Exist(a), u.Nonce(a), u.Code(a), u.Balance(a), oldBal, u.Suicided(a))
@@ -452,6 +518,7 @@ func runStateCase(c StateCase, x *h.Ctx) {
 			v := stAmounts[op.V%len(stAmounts)]
 			u.AddBal(a, v)
 			r.r.AddBal(a, v)
+			dirty = dirty || v.Sign() != 0 || wasEmpty // a zero-value transfer touches an empty account
 			if post(u.Exist(a) && u.Balance(a).Cmp(new(big.Int).Add(oldBal, v)) == 0, "AddBalance(%x, %s): balance %s -> %s, exist=%v", a[:2], v, oldBal, u.Balance(a), u.Exist(a)) {
 				return
 			}
@@ -463,6 +530,7 @@ func runStateCase(c StateCase, x *h.Ctx) {
 			}
 			u.SubBal(a, v)
 			r.r.SubBal(a, v)
+			dirty = dirty || v.Sign() != 0
 			if post(u.Exist(a) && u.Balance(a).Cmp(new(big.Int).Sub(oldBal, v)) == 0, "SubBalance(%x, %s): balance %s -> %s, exist=%v", a[:2], v, oldBal, u.Balance(a), u.Exist(a)) {
 				return
 			}
@@ -470,6 +538,7 @@ func runStateCase(c StateCase, x *h.Ctx) {
 			v := stAmounts[op.V%len(stAmounts)]
 			u.SetBal(a, v)
 			r.r.SetBal(a, v)
+			dirty = true
 			if post(u.Exist(a) && u.Balance(a).Cmp(v) == 0, "SetBalance(%x, %s): balance %s", a[:2], v, u.Balance(a)) {
 				return
 			}
@@ -477,6 +546,7 @@ func runStateCase(c StateCase, x *h.Ctx) {
 			n := stNonces[op.V%len(stNonces)]
 			u.SetNonce(a, n)
 			r.r.SetNonce(a, n)
+			dirty = true
 			if post(u.Exist(a) && u.Nonce(a) == n, "SetNonce(%x, %d): nonce %d", a[:2], n, u.Nonce(a)) {
 				return
 			}
@@ -484,12 +554,14 @@ func runStateCase(c StateCase, x *h.Ctx) {
 			code := stCodes[op.V%len(stCodes)]
 			u.SetCode(a, code)
 			r.r.SetCode(a, code)
+			dirty = true
 			if post(u.Exist(a) && bytes.Equal(u.Code(a), code) && u.CodeSize(a) == len(code) && bytes.Equal(kec(code), wbytes(u.CodeHash(a))),
 				"SetCode(%x, %x): code %x size %d hash %x", a[:2], code, u.Code(a), u.CodeSize(a), u.CodeHash(a)) {
 				return
 			}
 		case "setstate":
 			k, v := stKeys[op.K%len(stKeys)], stVals[op.V%len(stVals)]
+			dirty = dirty || u.State(a, k) != v // writing the current value journals nothing
 			u.SetState(a, k, v)
 			r.r.SetState(a, k, v)
 			if post(u.Exist(a) && u.State(a, k) == v, "SetState(%x, %x, %x): reads back %x", a[:2], k[30:], trimWord(v), trimWord(u.State(a, k))) {
@@ -498,6 +570,7 @@ func runStateCase(c StateCase, x *h.Ctx) {
 		case "suicide":
 			got := u.Suicide(a)
 			r.r.Suicide(a)
+			dirty = existed
 			if existed {
 				r.stats.suicides++
 			}
@@ -526,11 +599,13 @@ func runStateCase(c StateCase, x *h.Ctx) {
 			r.r.Revert(s.idR)
 			now := fullDump(u)
 			kinds := map[string]bool{}
+			var undone []string
 			for _, m := range r.muts[s.at:] {
-				kinds[m] = true
+				kinds[m.kind] = true
+				undone = append(undone, m.kind)
 			}
 			if d := diffDump(s.dump, now); d != "" {
-				x.Fail("revert-does-not-restore-snapshot", "%s: after RevertToSnapshot(%d) over %v the state differs from the dump taken at Snapshot(): %s", where, s.idU, r.muts[s.at:], d)
+				x.Fail("revert-does-not-restore-snapshot", "%s: after RevertToSnapshot(%d) over %v the state differs from the dump taken at Snapshot(): %s", where, s.idU, undone, d)
 				return
 			}
 			if u.Refund() != s.refund || u.LogCount() != s.logs {
@@ -574,7 +649,7 @@ func runStateCase(c StateCase, x *h.Ctx) {
 			u = r.u
 		}
 		if single || op.Op == "refund" || op.Op == "log" {
-			r.muts = append(r.muts, op.Op)
+			r.muts = append(r.muts, mut{kind: op.Op, a: a, dirty: dirty && single, reset: reset})
 		}
 		if single {
 			after := fullDump(u)
@@ -591,6 +666,10 @@ func runStateCase(c StateCase, x *h.Ctx) {
 	}
 
 	// ---- final: root, history independence, commit + reopen from disk ----
+	if ba, ok := r.bareReset(); ok {
+		r.bareResetCheck(ba, c.FinalDel, "final")
+		return
+	}
 	ru, rr := r.u.IRoot(c.FinalDel), r.r.IRoot(c.FinalDel)
 	r.endTx()
 	if r.roots(ru, rr, fmt.Sprintf("final IntermediateRoot(%v)", c.FinalDel)) {
